@@ -440,37 +440,27 @@ class ScheduleNTasksInTimeIntervals(TaskConstraint):
 
         problem_function = {"min": z3.PbGe, "max": z3.PbLe, "exact": z3.PbEq}
 
-        # count the number of tasks that re scheduled in this time interval
+        # count the number of tasks that are scheduled in these time intervals
         all_bools = []
         for task in self.list_of_tasks:
-            # for this task, the logic expression is that any of its start or end must be
-            # between two consecutive intervals
-            bools_for_this_task = []
-            for time_interval in self.list_of_time_intervals:
-                task_in_time_interval = z3.Bool(
-                    f"InTimeIntervalTask_{task.name}_{uuid.uuid4().int}"
-                )
-                lower_bound, upper_bound = time_interval
-                cstrs = [
-                    task._start >= lower_bound,
-                    task._end <= upper_bound,
-                    z3.Not(
-                        z3.And(task._start < lower_bound, task._end > lower_bound)
-                    ),  # overlap at start
-                    z3.Not(
-                        z3.And(task._start < upper_bound, task._end > upper_bound)
-                    ),  # overlap at end
-                    z3.Not(z3.And(task._start < lower_bound, task._end > upper_bound)),
-                ]  # full overlap
-                asst = z3.Implies(task_in_time_interval, z3.And(cstrs))
-                self.set_z3_assertions(asst)
-                bools_for_this_task.append(task_in_time_interval)
-            # only one maximum bool to True from the previous possibilities
-            asst_tsk = z3.PbLe(
-                [(scheduled, True) for scheduled in bools_for_this_task], 1
+            # the task lies in a time interval if and only if both its start and its end
+            # are inside the interval (and the task is actually scheduled)
+            inside_any_interval = z3.Or(
+                [
+                    z3.And(task._start >= lower_bound, task._end <= upper_bound)
+                    for lower_bound, upper_bound in self.list_of_time_intervals
+                ]
             )
-            self.set_z3_assertions(asst_tsk)
-            all_bools.extend(bools_for_this_task)
+            task_in_time_intervals = z3.Bool(
+                f"InTimeIntervalTask_{task.name}_{uuid.uuid4().int}"
+            )
+            # an equivalence, so that a task that lies in an interval is counted:
+            # otherwise the 'max' and 'exact' kinds would not bound the count from above
+            self.set_z3_assertions(
+                task_in_time_intervals == z3.And(task._scheduled, inside_any_interval)
+            )
+            # each task is counted once, even if intervals overlap
+            all_bools.append(task_in_time_intervals)
 
         # we also have to exclude all the other cases, where start or end can be between two intervals
         # then set the constraint for the number of tasks to schedule
